@@ -159,6 +159,10 @@ class EmitterInit(FnSpec):
 def make_specs():
     W = World()
     out = [MaskFromFilter(W), c04.QueueEvent(PROP), EmitterInit()]
+    from specs.inotify_read import Init, IRWorld
+    ini = Init(IRWorld(), PROP)
+    ini.check_mask = True
+    out.append(ini)
     # the translation itself is filter-independent (frame), and two schedules of one path with different filters are
     # different watches with their own emitters (watch identity includes the filter)
     from specs import inotify_emitter, c13
@@ -175,7 +179,7 @@ def lemmas():
     from specs import c16
     out = [ob for ob in c16.lemmas() if "EventQueue" in ob.name]   # the shared queue drops only true repeats of (event, watch)
     consts = source.module(FILE_C).constants()
-    bad = [k for k, v in T.ABI.items() if consts.get("InotifyConstants." + k) != v]
+    bad = [k for k, v in list(T.ABI.items()) + list(T.SPECIAL.items()) if consts.get("InotifyConstants." + k) != v]
     out.append(Obligation("lemma[InotifyConstants equal the kernel ABI]", "lemma", [], z3.BoolVal(not bad), ",".join(bad), "InotifyConstants"))
     allev = consts.get("WATCHDOG_ALL_EVENTS")
     missing = [b for b in T.REQUESTABLE if not (isinstance(allev, int) and allev & T.ABI[b])]
@@ -189,6 +193,7 @@ EXPECTED_CLAUSES = ["post[complete:FileDeletedEvent<-IN_MOVED_FROM]", "post[comp
                     "loop1.preserved[complete:FileCreatedEvent<-IN_CREATE]", "queue_event.post[queued iff", "lemma[default mask",
                     "queue_events.post[frame:pair:IN_MOVED_FROM+IN_MOVED_TO|ISDIR,recursive", "ObservedWatch.key.post[key is a triple"]
 CANARIES = [
+    {"name": "a filter-derived mask keeps whatever IN_DONT_FOLLOW bit it came with (the repaired defect)", "file": "watchdog/observers/inotify_c.py", "fn": "Inotify.__init__", "find": "        else:\n            event_mask |= InotifyConstants.IN_DONT_FOLLOW\n", "replace": ""},
     {"name": "sub-events only if the filter selects the directory event", "file": FILE, "fn": "InotifyEmitter.queue_events", "find": "if event.is_directory and self.watch.is_recursive:", "replace": "if event.is_directory and self.watch.is_recursive and self._event_filter is None:"},
     {"name": "remove IN_MOVE from the created arm", "file": FILE, "fn": "InotifyEmitter.get_event_mask_from_filter", "find": "event_mask |= InotifyConstants.IN_MOVE | InotifyConstants.IN_CREATE\n", "replace": "event_mask |= InotifyConstants.IN_CREATE\n"},
     {"name": "isinstance -> exact class in queue_event", "file": "watchdog/observers/api.py", "fn": "EventEmitter.queue_event", "find": "any(isinstance(event, cls) for cls in self._event_filter)", "replace": "any(type(event) is cls for cls in self._event_filter)"},
